@@ -60,7 +60,7 @@ class CharRule:
 class Schema:
     def __init__(s, name, rules, root, ops, n=3, alphabet='x', props=(), extract='', support='', post='', types='',
                  nonzero=(), cmp_err=True, cmp_fields=True, custom_ws=None, nchk=0, user_ctx=None, derives=None,
-                 tracer=False, allow_sentinel=False, expect='ok', raw_ebnf=None, note='', kani=True, twin_of=None, root_call=None):
+                 tracer=False, allow_sentinel=False, via_public=False, expect='ok', raw_ebnf=None, note='', kani=True, twin_of=None, root_call=None):
         s.__dict__.update(locals()); del s.__dict__['s']
 
 # ------------------------------------------------------------------------------------------------ grammar text
@@ -98,7 +98,7 @@ def table_count(schema, n):
     for k in range(n + 1):
         per_op = 1
         for p in range(k + 1): per_op *= (k - p + 2)
-        total += (len(schema.alphabet) ** k) * (per_op ** len(schema.ops)) * (2 ** ((k + 1) * schema.nchk))
+        total += (len(alphabet_bytes(schema)) ** k) * (per_op ** len(schema.ops)) * (2 ** ((k + 1) * schema.nchk))
     return total
 
 def bound_for(schema, cap):
@@ -254,6 +254,13 @@ class Emit:
             s.rule(r)
         return '\n'.join(s.fns)
 
+def alphabet_bytes(schema):
+    out = []
+    for c in schema.alphabet:
+        for b in c.encode('utf-8'):
+            if b not in out: out.append(b)
+    return out
+
 def rust_module(schema, gen_dir):
     """the Rust module for one schema (included by harness/src/schemas.rs)"""
     em = Emit(schema)
@@ -267,8 +274,15 @@ def rust_module(schema, gen_dir):
     nonzero = ' && '.join(['true'] + ['(0..NPOS).all(|p| t.op[%d][p] != 1)' % OPS.index(o) for o in schema.nonzero])
     unused = ' && '.join(['true'] + ['t.op[%d] == [0; NPOS]' % i for i in range(4) if i not in used_ops] +
                          ['t.chk[%d] == [true; NPOS]' % i for i in range(2) if i >= schema.nchk])
-    alphabet = ', '.join("b'%s'" % c if c not in ("\t", "\n", "\x0b", "\r", "\x0c") else str(ord(c)) for c in schema.alphabet)
-    root_call = schema.root_call or 'peginator_generated::parse_%s' % schema.root
+    alphabet = ', '.join(str(b) for b in alphabet_bytes(schema))
+    if schema.via_public:
+        # through the public entry point generated for @export rules (the end offset is then not observable:
+        # the schema's extract code sets o.end from what the value records)
+        root_call = '<%s as peginator::PegParserAdvanced<%s>>::parse_advanced::<%s>(input, &ParseSettings::default(), %s)' % (schema.root, ctx_ty, tracer, ctx_val)
+        ok_bind = '                let v = ok;'
+    else:
+        root_call = (schema.root_call or 'peginator_generated::parse_%s' % schema.root) + '(st, &mut g)'
+        ok_bind = '                o.end = ok.state.cache_key();\n                let v = ok.result;'
     return '''
 pub mod %(name)s {
     #![allow(unused, non_snake_case, non_camel_case_types, clippy::all)]
@@ -301,11 +315,10 @@ pub mod %(name)s {
         let st = ParseState::new(input, &ParseSettings::default());
         let mut g = ParseGlobal::<%(tracer)s, peginator_generated::ParseCache, %(ctx_ty)s>::new(Default::default(), %(ctx_val)s);
         let mut o = Obs::new();
-        match %(root_call)s(st, &mut g) {
+        match %(root_call)s {
             Ok(ok) => {
                 o.ok = true;
-                o.end = ok.state.cache_key();
-                let v = ok.result;
+%(ok_bind)s
 %(extract)s
             }
             Err(e) => {
@@ -335,7 +348,7 @@ pub mod %(name)s {
 ''' % dict(name=schema.name, n=schema.n, alphabet=alphabet, used_ops=str(used_ops), nchk=schema.nchk,
            cmp_err='true' if schema.cmp_err else 'false', allow_sentinel='true' if schema.allow_sentinel else 'false', cmp_fields='true' if schema.cmp_fields else 'false',
            support=schema.support, nonzero=nonzero, unused=unused, ctx_new=ctx_new, tracer=tracer, ctx_ty=ctx_ty,
-           ctx_val=ctx_val, root=schema.root, extract=schema.extract, oracle=oracle, root_call=root_call,
+           ctx_val=ctx_val, root=schema.root, extract=schema.extract, oracle=oracle, root_call=root_call, ok_bind=ok_bind,
            custom_ws=('cx.custom_ws = Some(b\'%s\');' % schema.custom_ws) if schema.custom_ws else '',
            post=schema.post)
 
